@@ -510,6 +510,62 @@ def find_garbled_pictures(file_key, kinds=("accessor-raises",)):
     return {"reproduced": False, "note": "garbled pictures: interface honoured"}
 
 
+# picture member names a package may legally carry: an extension no table knows, none at all, upper case, dots in the stem, a
+# vector / metafile format, a name with blanks and non-ASCII letters (what the content type is guessed from)
+PICTURE_NAMES = ["{stem}.q7z9", "{stem}", "{stem}.PNG", "{stem}.v1.2", "{stem}.svm", "{stem}.wmf", "{stem}.emf", "{stem}.webp", "{stem}.jfif", "b\u00efld {stem}.png", "{stem}."]
+
+
+def rename_pictures(path, pred, pattern):
+    """The document with every picture member renamed after `pattern` and every reference in the XML parts (href, manifest,
+    relationships, content types default extensions stay) rewritten."""
+    src = zipfile.ZipFile(path)
+    names = {}
+    for k, zi in enumerate(i for i in src.infolist() if pred(i.filename) and not i.filename.endswith("/")):
+        d, base = zi.filename.rsplit("/", 1)
+        names[zi.filename] = d + "/" + pattern.format(stem=f"pic{k}")
+    if not names:
+        return None, []
+    buf = io.BytesIO()
+    with zipfile.ZipFile(buf, "w", zipfile.ZIP_DEFLATED) as z:
+        for zi in src.infolist():
+            data = src.read(zi.filename)
+            if zi.filename in names:
+                z.writestr(names[zi.filename], data)
+                continue
+            if zi.filename.endswith((".xml", ".rels")):
+                for old, new in names.items():
+                    for o, n in ((old, new), (old.split("/", 1)[-1] if old.startswith(("word/", "ppt/", "xl/")) else None, new.split("/", 1)[-1])):
+                        if o:
+                            data = data.replace(o.encode("utf-8"), n.replace("&", "&amp;").encode("utf-8"))
+            z.writestr(zi, data)
+    return buf.getvalue(), sorted(names.values())
+
+
+def find_renamed_pictures(file_key, kinds=("accessor-raises", "not-str")):
+    tried = 0
+    for rel, pred, key in DAMAGED:
+        if key not in file_key and "data_types" not in file_key and "_shared" not in file_key:
+            continue
+        f = os.path.join(RES, rel)
+        if not os.path.exists(f):
+            continue
+        for pattern in PICTURE_NAMES:
+            try:
+                data, hit = rename_pictures(f, pred, pattern)
+                if data is None:
+                    break
+                F = failures_of(data, f)
+            except Exception:  # noqa -- a package the extractor refuses as a whole is no result to judge
+                continue
+            tried += 1
+            bad = [x for x in F if x["kind"] in kinds]
+            if bad:
+                return {"reproduced": True, "target": f"sharepoint2text extractor for {rel.split('.')[-1]}",
+                        "inputs": {"fixture": "tests/resources/" + rel, "mutation": f"picture members renamed to {pattern!r} (references rewritten)", "members": hit},
+                        "expected": "every image: accessors total, get_content_type() is a str", "observed": f"{bad[0]['where']}: {bad[0]['detail']}"}
+    return {"reproduced": False, "note": f"{tried} documents with renamed picture members: interface honoured"}
+
+
 def blip_stream():
     """An OfficeArt `Pictures` stream with one record of every BLIP kind the readers know (PNG, JPEG, DIB, EMF, WMF)."""
     from sharepoint2text.parsing.extractors.util import image_utils as iu
@@ -1045,8 +1101,8 @@ def find(req):
                 bad, name = c04_meta.run_case(r)
             except Exception as e:  # noqa
                 bad, name = [("?", "?", "extraction", f"{type(e).__name__}")], r
-            for (p_, f_, want, got) in bad:
-                s.append({"kind": "metadata", "where": f"{r} get_metadata().{f_}", "detail": f"stored {want!r}, reported {got!r}", "file": f"crafted:{name}"})
+            for (p_, f_, want, got, *lay) in bad:
+                s.append({"kind": "metadata", "where": f"{r} get_metadata().{f_}", "detail": f"stored {want!r}, reported {got!r}", "file": f"crafted:{name}" + (" " + lay[0] if lay else "")})
         return {"reproduced": bool(s), "failures": s[:50], "count": len(s), "files": len(fixture_files())}
     if "assumed-model-validation" in ob:
         s = sweep(fixtures_only=True)
@@ -1087,7 +1143,11 @@ def find(req):
         # image objects built at (or rewritten after) a constructor site: documents that reach the error branches (pictures that
         # cannot be read, pictures of an unknown format without extents), a hand-built OfficeArt stream, then every fixture
         kinds = ("image-number", "image-size", "bytes", "accessor-raises", "not-str")
-        for r in (find_damaged_member(ob, kinds), find_garbled_pictures(ob, kinds), find_blip(ob)):
+        finders = [lambda: find_damaged_member(ob, kinds), lambda: find_garbled_pictures(ob, kinds), lambda: find_blip(ob)]
+        if "not-from-a-None-source" in ob:
+            finders.insert(0, lambda: find_renamed_pictures(ob, kinds))
+        for fn_ in finders:
+            r = fn_()
             if r["reproduced"]:
                 return r
         cls = ob.split("#")[1].split("-")[0]
